@@ -25,12 +25,22 @@ SAFE = set("abcdefghijklmnopqrstuvwxyzABCDEFGHIJKLMNOPQRSTUVWXYZ0123456789-_.")
 FORBIDDEN = set(' <>{}[]?*"#%\\^|~`$&,;:/')
 
 
+VOCAB = ["execution", "stateMachine", "states", "arn", "aws", "local", "0123456789", "express", "activity",
+         "executions", "statemachine", "Execution"]
+
+
 def gen_name(rng):
     r = rng.random()
-    if r < 0.15:
+    if r < 0.12:
+        # names made of the ARN's own vocabulary: every derivation must treat them as opaque text
+        parts = [rng.choice(VOCAB) if rng.random() < 0.7 else rng.choice(["a", "x1", "flow"]) for _ in range(rng.randint(1, 3))]
+        if not any(p in VOCAB for p in parts):
+            parts[0] = rng.choice(VOCAB)
+        return rng.choice(["-", "_", ".", ""]).join(parts)
+    if r < 0.25:
         n = rng.choice([80, 81, 79])
         return "".join(rng.choice("ab0-_.") for _ in range(n))
-    if r < 0.5:
+    if r < 0.55:
         n = rng.randint(1, 12)
         return "".join(rng.choice(list(SAFE)) for _ in range(n))
     n = rng.randint(1, 10)
